@@ -282,6 +282,8 @@ func VH_C03_pattern(kind, nfacts, parent int) {
 // the engine routes core.RunJavascript here, natively the real otto runs the same text.
 func vhRunJS(bs *Bindings, props map[string]interface{}, code string) (interface{}, error) {
 	switch code {
+	case "":
+		return nil, nil // the empty program: undefined
 	case "true":
 		return true, nil
 	case "false":
